@@ -26,6 +26,9 @@ type Failure struct {
 	What   string      `json:"what"`
 	Kind   string      `json:"kind"`
 	Replay interface{} `json:"case"`
+	// NoRepro: the failure is a call still running at its deadline; the leaked goroutine keeps a core busy,
+	// so Check does not re-evaluate it five times
+	NoRepro bool `json:"-"`
 }
 
 type findingAcc struct {
@@ -69,6 +72,9 @@ type Ctx struct {
 	capHit     bool
 	harnessErr []string
 	outcomes   map[string]map[string]bool
+
+	expiredFlag int32
+	skipped     int64
 }
 
 func newCtx(prop, tier string) *Ctx {
@@ -89,7 +95,7 @@ func newCtx(prop, tier string) *Ctx {
 		bounds: map[string]interface{}{}, sampleKeys: map[string]bool{}, outcomes: map[string]map[string]bool{}}
 	budget := 10 * time.Minute
 	if tier == "thorough" {
-		budget = 40 * time.Minute
+		budget = 60 * time.Minute
 	}
 	if s := os.Getenv("VERIF_BUDGET_S"); s != "" {
 		if v, err := strconv.Atoi(s); err == nil && v > 0 {
@@ -97,14 +103,31 @@ func newCtx(prop, tier string) *Ctx {
 		}
 	}
 	c.deadline = c.start.Add(budget)
+	// the internal deadline: once it has passed, Check/CheckTimed stop evaluating (parFor still hands out every chunk,
+	// so tables and counts that feed aggregate comparisons stay complete; the evidence then says
+	// exhaustive:false and which cap was hit; the exit code is still decided by what was evaluated)
+	time.AfterFunc(budget, func() { atomic.StoreInt32(&c.expiredFlag, 1) })
 	return c
+}
+
+// skipAfterDeadline reports whether the internal deadline has passed, recording the cap once.
+func (c *Ctx) skipAfterDeadline() bool {
+	if atomic.LoadInt32(&c.expiredFlag) == 0 {
+		return false
+	}
+	if atomic.AddInt64(&c.skipped, 1) == 1 {
+		c.CapHit(fmt.Sprintf("internal deadline of the %s tier reached: the remaining evaluations were skipped", c.Tier))
+	}
+	return true
 }
 
 func (c *Ctx) Thorough() bool { return c.Tier == "thorough" }
 
 // Expired reports whether the internal tier deadline has passed; a check that
 // stops because of it must call CapHit so that the evidence says exhaustive:false.
-func (c *Ctx) Expired() bool { return time.Now().After(c.deadline) }
+func (c *Ctx) Expired() bool {
+	return atomic.LoadInt32(&c.expiredFlag) == 1 || time.Now().After(c.deadline)
+}
 
 func (c *Ctx) CapHit(what string) {
 	c.mu.Lock()
@@ -198,6 +221,9 @@ func (c *Ctx) Fail(f *Failure) {
 // Check evaluates one case; a failure is re-evaluated 5 times and must reproduce with
 // the same classifier, otherwise it is a harness error (nondeterminism), not a violation.
 func (c *Ctx) Check(eval func() *Failure) bool {
+	if c.skipAfterDeadline() {
+		return true
+	}
 	atomic.AddInt64(&c.evals, 1)
 	f := eval()
 	if f == nil {
@@ -206,7 +232,7 @@ func (c *Ctx) Check(eval func() *Failure) bool {
 	c.mu.Lock()
 	_, seen := c.findings[f.Class]
 	c.mu.Unlock()
-	if !seen {
+	if !seen && !f.NoRepro {
 		for i := 0; i < 5; i++ {
 			g := eval()
 			if g == nil || g.Class != f.Class {
@@ -223,6 +249,9 @@ func (c *Ctx) Check(eval func() *Failure) bool {
 // returned after d, onTimeout() describes the failure (the goroutine is leaked and keeps spinning, so the
 // failure is not re-evaluated five times).
 func (c *Ctx) CheckTimed(d time.Duration, eval func() *Failure, onTimeout func() *Failure) bool {
+	if c.skipAfterDeadline() {
+		return true
+	}
 	ch := make(chan *Failure, 1)
 	go func() { ch <- eval() }()
 	select {
